@@ -22,7 +22,12 @@ import itertools
 
 from . import affine
 from .astutil import norm, call_name, clone
-from .sem import definition, expand
+from .sem import definition as _definition, expand, ENTRY
+
+
+def definition(*a, **k):
+    d = _definition(*a, **k)
+    return None if d is ENTRY else d
 
 _uid = itertools.count(1)
 
@@ -72,6 +77,14 @@ class Seq(Node):
 
 
 class Rep(Node):
+    def __new__(cls, count=None, body=None, var=None, rng=None, it=None):
+        # a conditional count is a choice between two repetitions
+        if isinstance(count, ast.IfExp):
+            return Alt(count.test, Rep(count.body, body, var, rng, it), Rep(count.orelse, body, var, rng, it))
+        if isinstance(count, ast.Constant) and count.value == 0 and not isinstance(count.value, bool):
+            return Seq([])
+        return super().__new__(cls)
+
     def __init__(self, count, body, var=None, rng=None, it=None):
         self.count, self.body, self.var, self.rng, self.it = count, body, var, rng, it
 
@@ -217,6 +230,8 @@ class Builder:
                         node = Alt(None, node, self.expr(d2, depth - 1))
                     return node
             return Sym(e.id, e)
+        if isinstance(e, ast.Call):
+            return Sym(norm(expand(fn, e, allow_calls=True)), e)     # operands of an opaque call in traced (name-free) form
         return Sym(norm(e), e)
 
     # ---- statements --------------------------------------------------------------------
